@@ -324,7 +324,7 @@ func checkC15(c *Ctx) {
 				v = mi.X
 			}
 			if n, isN := types.Unalias(v.Type()).(*types.Named); isN && n.Obj().Pkg() != nil && n.Obj().Pkg().Path() == zp {
-				if m := c.Method(zp, n.Obj().Name(), "apply"); m != nil {
+				if m := c.Method(zp, TNm(n.Obj()), "apply"); m != nil {
 					// the value handed to the type is the parameter itself
 					if cv, isCv := Strip(v).(*ssa.Convert); isCv && Strip(cv.X) == ssa.Value(acs.Params[0]) || Strip(v) == ssa.Value(acs.Params[0]) {
 						fns = append(fns, m)
@@ -675,7 +675,7 @@ func c15CheckCallers(c *Ctx) {
 	for _, cl := range c.CallersOf("(*go.uber.org/zap.Logger).check") {
 		fn := cl.Parent()
 		rn := RecvNamed(fn)
-		ok := rn != nil && rn.Obj().Name() == "Logger" && fn.Object() != nil && fn.Object().Exported() && fn.Parent() == nil
+		ok := rn != nil && TNm(rn.Obj()) == "Logger" && fn.Object() != nil && fn.Object().Exported() && fn.Parent() == nil
 		c.Check(ok, "R15.3", FStr(fn), "check-caller", cl.Pos(), "check is called directly from an exported *Logger method (its skip offset assumes exactly that depth)")
 	}
 }
